@@ -6,12 +6,21 @@
 package main
 
 import (
+	"bytes"
+	"crypto/tls"
+	"encoding/json"
 	"fmt"
+	"io"
+	"io/ioutil"
+	"net"
 	"os"
+	"path/filepath"
+	"time"
 
 	"verif/harness/e2e"
 	"verif/harness/hv"
 
+	"github.com/bfenetworks/bfe/bfe_config/bfe_conf"
 	"github.com/bfenetworks/bfe/bfe_module"
 )
 
@@ -33,25 +42,94 @@ func getEnv(rm, mode int) *env {
 	plan := e2e.NewPlan()
 	b0, b1 := e2e.NewBackend("bk0"), e2e.NewBackend("bk1")
 	b0.Plan, b1.Plan = plan, plan
-	d := e2e.DeadBackend("bk2", 2+nenv)
+	d := e2e.DeadBackend("bk2", 2+2*nenv)
+	d2 := e2e.DeadBackend("bk3", 3+2*nenv)
 	bm := ""
 	if mode == 1 {
 		bm = "WLC"
 	}
 	srv := e2e.Start(e2e.Options{
-		Products: []e2e.Product{{Name: "p", Hosts: []string{"example.org"}, Cluster: "c"}},
+		Products: []e2e.Product{{Name: "p", Hosts: []string{"example.org"}, Cluster: "c"},
+			{Name: "p2", Hosts: []string{"dead.example.org"}, Cluster: "c2"}},
+		DefaultProduct: "p", // a TLS stream connection has no Host: routed through the default product
 		Clusters: []e2e.Cluster{{Name: "c", RetryMax: rm, CrossRetry: 0, RetryLevel: 1, BalanceMode: bm,
-			SubClusters: []e2e.SubCluster{{Name: "s1", Weight: 100, Backends: []*e2e.Backend{b0, b1, d}}}}},
-		Handlers: 1,
+			SubClusters: []e2e.SubCluster{{Name: "s1", Weight: 100, Backends: []*e2e.Backend{b0, b1, d}}}},
+			{Name: "c2", RetryMax: 0, SubClusters: []e2e.SubCluster{{Name: "s1", Weight: 100, Backends: []*e2e.Backend{d2}}}}},
+		Handlers: 1, HTTPS: true,
+		Tweak: func(cfg *bfe_conf.BfeConfig, root string) { // offer the "stream" protocol on the TLS listener
+			p := filepath.Join(root, "tls_conf", "tls_rule_conf.data")
+			var v map[string]interface{}
+			b, err := ioutil.ReadFile(p)
+			if err != nil || json.Unmarshal(b, &v) != nil {
+				panic("c07: tls_rule_conf.data")
+			}
+			v["DefaultNextProtos"] = []string{"stream", "http/1.1"}
+			if cfgs, ok := v["Config"].(map[string]interface{}); ok {
+				for _, pc := range cfgs {
+					if pm, ok := pc.(map[string]interface{}); ok {
+						pm["NextProtos"] = []string{"stream", "http/1.1"}
+					}
+				}
+			}
+			nb, _ := json.MarshalIndent(v, "", " ")
+			ioutil.WriteFile(p, nb, 0644)
+		},
 	})
+	// warm-up: plain GETs until the server has selected every backend once (verifmod captures the *BfeBackend
+	// pointers at HandleForward; the tunnel paths have no module callback that exposes them)
+	for i := 0; i < 40; i++ {
+		all := true
+		for _, n := range []string{"bk0", "bk1", "bk2", "bk3"} {
+			if _, known := srv.ConnNum(n); !known {
+				all = false
+			}
+		}
+		srv.Get("dead.example.org", "/warmup")
+		if all {
+			break
+		}
+		srv.Get("example.org", "/warmup")
+	}
 	e := &env{srv, plan, []*e2e.Backend{b0, b1, d}}
 	envs[k] = e
 	return e
 }
 
+const wsHead = "HTTP/1.1 101 Switching Protocols\r\nUpgrade: websocket\r\nConnection: Upgrade\r\nSec-WebSocket-Accept: s3pPLMBiTxaQ9kYGzzhZRbK+xOo=\r\n\r\n"
+
+// runTunnel opens a WebSocket (kind 0) or TLS stream (kind 1) tunnel carrying the id and reads until the proxy closes
+// the client side; the result is sent on done (1 = ended).
+func (e *env) runTunnel(kind int, id string, done chan int) {
+	defer func() { done <- 1 }()
+	if kind == 0 || kind == 2 {
+		host := map[int]string{0: "example.org", 2: "dead.example.org"}[kind]
+		c := e.srv.Dial()
+		defer c.Close()
+		c.Send([]byte("GET /tunnel HTTP/1.1\r\nHost: " + host + "\r\nUpgrade: websocket\r\nConnection: Upgrade\r\n" +
+			"Sec-WebSocket-Key: dGhlIHNhbXBsZSBub25jZQ==\r\nSec-WebSocket-Version: 13\r\nX-Verif-Id: " + id + "\r\n\r\n"))
+		c.ReadUntilClose()
+		return
+	}
+	raw, err := net.DialTimeout("tcp", e.srv.TLSAddr, e.srv.Deadline)
+	if err != nil {
+		return
+	}
+	defer raw.Close()
+	raw.SetDeadline(time.Now().Add(e.srv.Deadline))
+	tc := tls.Client(raw, &tls.Config{InsecureSkipVerify: true, NextProtos: []string{"stream"}, ServerName: "example.org",
+		MaxVersion: tls.VersionTLS12})
+	if err := tc.Handshake(); err != nil || tc.ConnectionState().NegotiatedProtocol != "stream" {
+		return
+	}
+	// the stream payload looks like an HTTP request head so that the fake backend can find the id
+	tc.Write([]byte("GET /stream HTTP/1.1\r\nX-Verif-Id: " + id + "\r\n\r\n"))
+	io.Copy(ioutil.Discard, tc)
+}
+
 type reqState struct {
 	done   chan int // status (0 = no reply)
 	hold   *e2e.Step
+	tunnel bool
 	held   bool
 	id     string
 	status int
@@ -94,9 +172,20 @@ func impl(in hv.Val) hv.Val {
 		}
 		return out
 	}
+	tunnelAttempts := func(id string) hv.L {
+		out := hv.L{}
+		for k := 0; k < 2; k++ {
+			for _, bc := range e.bks[k].Conns() {
+				if bytes.Contains(bc.Bytes, []byte("X-Verif-Id: "+id+"\r\n")) {
+					out = append(out, hv.I(k))
+				}
+			}
+		}
+		return out
+	}
 	counts := func() hv.L {
 		out := hv.L{}
-		for _, n := range []string{"bk0", "bk1", "bk2"} {
+		for _, n := range []string{"bk0", "bk1", "bk2", "bk3"} {
 			c, _ := e.srv.ConnNum(n)
 			out = append(out, hv.I(c))
 		}
@@ -178,6 +267,51 @@ func impl(in hv.Val) hv.Val {
 			}
 			rs.id = idc
 			obs = append(obs, hv.L{attempts(idc), hv.I(rs.status), hv.I(held), counts()})
+		case 3:
+			if len(op) != 4 {
+				return hv.Err(0)
+			}
+			if r := reqs[rid]; r != nil && r.held {
+				return hv.Err(1)
+			}
+			kind, st := int(hv.AsInt(op[2])), int(hv.AsInt(op[3]))
+			if kind < 0 || kind > 2 || st < 0 || st > 2 {
+				return hv.Err(0)
+			}
+			id = fmt.Sprintf("t%d.%d", rid, len(obs))
+			rs := &reqState{done: make(chan int, 1), tunnel: true, id: id}
+			switch {
+			case st == 0 && kind == 0:
+				h := e2e.ReplyThenHold([]byte(wsHead))
+				rs.hold = &h
+				e.plan.PushFor(id, h)
+			case st == 0:
+				h := e2e.ReplyThenHold(nil)
+				rs.hold = &h
+				e.plan.PushFor(id, h)
+			case st == 2 && kind == 0:
+				e.plan.PushFor(id, e2e.Reply([]byte("HTTP/1.1 403 Forbidden\r\nContent-Length: 0\r\n\r\n")))
+			default:
+				e.plan.PushFor(id, e2e.ReadHeadClose())
+			}
+			reqs[rid] = rs
+			go e.runTunnel(kind, id, rs.done)
+			heldCh := make(chan bool, 1)
+			stop := make(chan struct{})
+			go func() { heldCh <- e.plan.WaitHeldOrStop(id, e.srv.Deadline, stop) }()
+			held := 0
+			select {
+			case <-rs.done:
+				close(stop)
+				rs.status = 1
+			case h := <-heldCh:
+				if !h {
+					return hv.Timeout()
+				}
+				held = 1
+				rs.held = true
+			}
+			obs = append(obs, hv.L{tunnelAttempts(id), hv.I(rs.status), hv.I(held), counts()})
 		case 2:
 			r := reqs[rid]
 			if r == nil {
@@ -188,6 +322,10 @@ func impl(in hv.Val) hv.Val {
 				e2e.Release(*r.hold)
 				r.status = <-r.done
 				r.held = false
+			}
+			if r.tunnel {
+				obs = append(obs, hv.L{tunnelAttempts(r.id), hv.I(r.status), hv.I(0), counts()})
+				break
 			}
 			obs = append(obs, hv.L{attempts(r.id), hv.I(r.status), hv.I(0), counts()})
 		default:
@@ -243,7 +381,7 @@ func gen(r *hv.Rng, i int, tier string) (string, hv.Val) {
 	class := "seq"
 	nops := 1 + r.Intn(6)
 	conc := 0
-	ff := false
+	ff, tun := false, false
 	for k := 0; k < nops; k++ {
 		// choose: start a request on a free rid, or release a held one
 		var heldIds, free []int
@@ -261,6 +399,16 @@ func gen(r *hv.Rng, i int, tier string) (string, hv.Val) {
 			continue
 		}
 		rid := free[r.Intn(len(free))]
+		if r.Chance(1, 12) { // a WebSocket / TLS-stream tunnel (each established tunnel costs the proxy's 250 ms shutdown timer)
+			kind, st := []int{0, 0, 0, 1, 1, 1, 2}[r.Intn(7)], []int{0, 0, 1, 2}[r.Intn(4)]
+			ops = append(ops, hv.L{hv.I(3), hv.I(rid), hv.I(kind), hv.I(st)})
+			tun = true
+			if st == 0 && kind != 2 {
+				held[rid] = true
+				conc++
+			}
+			continue
+		}
 		fwd, steps, holds := genReq(r, rm, true)
 		for _, f := range fwd {
 			if hv.AsInt(f) == 0 {
@@ -285,6 +433,9 @@ func gen(r *hv.Rng, i int, tier string) (string, hv.Val) {
 	if ff {
 		class += "-fwdfinish"
 	}
+	if tun {
+		class += "-tunnel"
+	}
 	if i == 0 {
 		return "triv-one-ok", hv.L{hv.I(2), hv.I(0), hv.L{hv.L{hv.I(1), hv.I(0), hv.L{}, hv.L{hv.I(0)}}}}
 	}
@@ -292,7 +443,7 @@ func gen(r *hv.Rng, i int, tier string) (string, hv.Val) {
 }
 
 func main() {
-	hv.Main(&hv.Spec{Prop: "C07", Gen: gen, Impl: impl, NQuick: 1200, NThorough: 30000})
+	hv.Main(&hv.Spec{Prop: "C07", Gen: gen, Impl: impl, NQuick: 800, NThorough: 30000})
 	for _, e := range envs {
 		e.srv.Close()
 	}
